@@ -365,9 +365,10 @@ func (g *gen) handOff() {
 	g.hoList("ho_receipts_yields", append(hoYields(hm), hoYields(sme)...))
 
 	// ---- muc ----
+	mr := g.parse("muc/room.go")
 	jp := hoFunc(mm, "Client", "JoinPresence")
 	hp := hoFunc(mm, "Client", "HandlePresence")
-	if jp == nil || hp == nil {
+	if mr == nil || jp == nil || hp == nil {
 		g.errs = append(g.errs, "muc/muc.go: Client.JoinPresence / HandlePresence not found")
 		return
 	}
@@ -381,13 +382,36 @@ func (g *gen) handOff() {
 		}
 	}
 	g.p("Definition ho_muc_depart_send_nonblocking : bool := %s.\n", hoBool(departNB))
+	// LeavePresence: a non-blocking receive from c.depart (stale token dropped)
+	// before the goroutine is started, and a blocking select that receives from it
+	lp := hoFunc(mr, "Channel", "LeavePresence")
+	if lp == nil {
+		g.errs = append(g.errs, "muc/room.go: Channel.LeavePresence not found")
+		return
+	}
+	drains, waits := 0, 0
+	for _, sel := range hoSelects(lp) {
+		n, def, _, send := g.hoSelectShape(sel)
+		if send || !bytes.Contains([]byte(g.hoText(sel)), []byte("<-c.depart")) {
+			continue
+		}
+		if def && n == 1 {
+			drains++
+		} else if !def {
+			waits++
+		}
+	}
+	g.p("Definition ho_muc_leave_drains_stale : nat := %d.\n", drains)
+	g.p("Definition ho_muc_leave_waits_for_depart : nat := %d.\n", waits)
+	g.hoList("ho_muc_yields", append(append(hoYields(hp), hoYields(hoFunc(mr, "Channel", "JoinPresence"))...), hoYields(lp)...))
 
 	// ---- ibb ----
 	g.p("Definition ho_ibb_readready_capacity : nat := %d.\n", max0(g, hoFieldChanCap(ic, "readReady"), "ibb/conn.go: readReady channel not found"))
 	rd := hoFunc(ic, "Conn", "Read")
 	pl := hoFunc(ib, "", "handlePayload")
-	if rd == nil || pl == nil {
-		g.errs = append(g.errs, "ibb: Conn.Read / handlePayload not found")
+	cr := hoFunc(ic, "Conn", "closeRead")
+	if rd == nil || pl == nil || cr == nil {
+		g.errs = append(g.errs, "ibb: Conn.Read / handlePayload / Conn.closeRead not found")
 		return
 	}
 	loops := 0
@@ -398,6 +422,7 @@ func (g *gen) handOff() {
 		return true
 	})
 	g.p("Definition ho_ibb_read_loops : nat := %d.\n", loops)
+	g.p("Definition ho_ibb_read_tests_channel_open : bool := %s.\n", hoBool(bytes.Contains([]byte(g.hoText(rd)), []byte("isOpen := <-c.readReady"))))
 	notifyNB := false
 	for _, sel := range hoSelects(pl) {
 		_, def, _, send := g.hoSelectShape(sel)
@@ -406,9 +431,21 @@ func (g *gen) handOff() {
 		}
 	}
 	g.p("Definition ho_ibb_notify_nonblocking : bool := %s.\n", hoBool(notifyNB))
+	plText := []byte(g.hoText(pl))
+	lockAt := bytes.Index(plText, []byte("conn.readLock.Lock()"))
+	closedAt := bytes.Index(plText, []byte("if conn.readClosed"))
+	g.p("Definition ho_ibb_payload_holds_lock_to_return : bool := %s.\n", hoBool(bytes.Contains(plText, []byte("defer conn.readLock.Unlock()"))))
+	g.p("Definition ho_ibb_payload_tests_closed_under_lock : bool := %s.\n", hoBool(lockAt >= 0 && closedAt > lockAt))
+	crText := []byte(g.hoText(cr))
+	g.p("Definition ho_ibb_close_unregisters : bool := %s.\n", hoBool(bytes.Contains(crText, []byte("rmStream"))))
+	g.p("Definition ho_ibb_close_under_read_lock : bool := %s.\n", hoBool(bytes.Index(crText, []byte("c.readLock.Lock()")) >= 0 &&
+		bytes.Index(crText, []byte("close(c.readReady)")) > bytes.Index(crText, []byte("c.readLock.Lock()"))))
 	cc := hoFunc(ic, "Conn", "Close")
-	removes := cc != nil && bytes.Contains([]byte(g.hoText(cc)), []byte("rmStream"))
-	g.p("Definition ho_ibb_local_close_unregisters : bool := %s.\n", hoBool(removes))
+	cn := hoFunc(ic, "Conn", "closeNoNotify")
+	g.p("Definition ho_ibb_both_closes_use_closeread : bool := %s.\n", hoBool(cc != nil && cn != nil &&
+		bytes.Contains([]byte(g.hoText(cc)), []byte("c.closeRead()")) && bytes.Contains([]byte(g.hoText(cn)), []byte("c.closeRead()")) &&
+		hoCountCalls(cc, "close") == 0 && hoCountCalls(cn, "close") == 0))
+	g.hoList("ho_ibb_yields", append(hoYields(rd), hoYields(pl)...))
 }
 
 func max0(g *gen, v int, msg string) int {
